@@ -356,17 +356,57 @@ Proof.
   - split; [apply incr_from_sound|apply incr_from_complete].
 Qed.
 
-Lemma zcode_inj a b : zcode a = zcode b -> a = b.
-Proof. destruct a, b; cbn [zcode]; intros H; try discriminate; try reflexivity; injection H as ->; reflexivity. Qed.
+(* bits_acc p acc = (bits of p, most significant first, leading 1 dropped) ++ acc *)
+Fixpoint bits_lsb (p : positive) : list bool :=
+  match p with xH => [] | xO q => false :: bits_lsb q | xI q => true :: bits_lsb q end.
 
-Lemma pmem_leaf p : pmem p PLeaf = false.
-Proof. destruct p; reflexivity. Qed.
-
-Lemma pmem_padd q : forall t p, pmem p (padd q t) = Pos.eqb p q || pmem p t.
+Lemma bits_acc_spec p : forall acc, bits_acc p acc = rev (bits_lsb p) ++ acc.
 Proof.
-  induction q as [q IH|q IH|]; intros t p; cbn [padd];
-    destruct t as [|l h r]; destruct p as [p|p|]; cbn [pmem Pos.eqb orb];
-    rewrite ?IH, ?pmem_leaf, ?orb_false_r; reflexivity.
+  induction p as [q IH|q IH|]; intros acc; cbn [bits_acc bits_lsb rev]; [| |reflexivity];
+    rewrite IH, <- app_assoc; reflexivity.
+Qed.
+
+Lemma bits_lsb_inj p : forall q, bits_lsb p = bits_lsb q -> p = q.
+Proof.
+  induction p as [p IH|p IH|]; intros [q|q|] H; cbn [bits_lsb] in H; try discriminate;
+    try reflexivity; injection H as H; f_equal; apply IH; exact H.
+Qed.
+
+Lemma bits_acc_inj p q : bits_acc p [] = bits_acc q [] -> p = q.
+Proof.
+  rewrite !bits_acc_spec, !app_nil_r. intros H. apply bits_lsb_inj.
+  rewrite <- (rev_involutive (bits_lsb p)), H. apply rev_involutive.
+Qed.
+
+Lemma zcode_inj a b : zcode a = zcode b -> a = b.
+Proof.
+  destruct a, b; cbn [zcode]; intros H; try discriminate; try reflexivity;
+    injection H as H; apply bits_acc_inj in H; subst; reflexivity.
+Qed.
+
+Lemma pmem_leaf k : pmem k PLeaf = false.
+Proof. destruct k; reflexivity. Qed.
+
+Fixpoint key_eqb (a b : list bool) : bool :=
+  match a, b with
+  | [], [] => true
+  | x :: a', y :: b' => Bool.eqb x y && key_eqb a' b'
+  | _, _ => false
+  end.
+Lemma key_eqb_eq a : forall b, key_eqb a b = true <-> a = b.
+Proof.
+  induction a as [|x a IH]; intros [|y b]; cbn [key_eqb]; try (split; [discriminate|discriminate]).
+  - split; reflexivity.
+  - rewrite andb_true_iff, Bool.eqb_true_iff, IH. split; [intros [-> ->]; reflexivity|].
+    intros H; injection H as -> ->. split; reflexivity.
+Qed.
+
+Lemma pmem_padd q : forall t k, pmem k (padd q t) = key_eqb k q || pmem k t.
+Proof.
+  induction q as [|b q IH]; intros t k.
+  - destruct t as [|l h r]; destruct k as [|[|] k]; cbn [padd pmem key_eqb orb]; rewrite ?pmem_leaf; reflexivity.
+  - destruct b; destruct t as [|l h r]; destruct k as [|[|] k]; cbn [padd pmem key_eqb Bool.eqb andb orb];
+      rewrite ?IH, ?pmem_leaf, ?orb_false_r; reflexivity.
 Qed.
 
 (* [t] represents exactly the codes of the list [S] *)
@@ -379,8 +419,8 @@ Lemma repr_add t S x : repr t S -> repr (padd (zcode x) t) (x :: S).
 Proof.
   intros H z. rewrite pmem_padd, orb_true_iff, (H z). cbn [In].
   split; intros [E|E]; try (right; exact E); left.
-  - apply Pos.eqb_eq in E. apply zcode_inj in E. congruence.
-  - subst. apply Pos.eqb_refl.
+  - apply key_eqb_eq in E. apply zcode_inj in E. congruence.
+  - subst. apply key_eqb_eq. reflexivity.
 Qed.
 
 Lemma add_all_sound l : forall t S t', repr t S -> add_all l t = Some t' ->
